@@ -1,7 +1,7 @@
 (* C14 - Equivariant to translation and axis swap, invariant to intensity offset. *)
 From Coq Require Import ZArith List.
 From BF Require Import Base.Util Model.Crop Model.Corr Model.Eval Model.Prelog Model.Pipeline
-  Proofs.CorrP Proofs.PipelineP.
+  Proofs.CorrP Proofs.PipelineP Proofs.TransposeP.
 Open Scope Z_scope.
 
 (* crop-based method: translating frame content and peak by the same vector (windows inside both frames) moves the
@@ -40,3 +40,18 @@ Theorem C14_positions_follow_the_anchor : forall c corr py px vy vx,
   r_cy r1 = r_cy r0 + vy /\ r_cx r1 = r_cx r0 + vx /\ r_height r1 = r_height r0 /\ r_com r1 = r_com r0.
 Proof. exact eval_peak_translate. Qed.
 Print Assumptions C14_positions_follow_the_anchor.
+
+(* axis swap of the evaluation kernels: with a unique maximum the integer centre of the transposed map is the swapped centre
+   (with ties the first-maximum rule is not swap symmetric), and the centre of mass swaps its coordinates *)
+Theorem C14_argmax_transposes_under_unique_maximum : forall H W c, 1 <= H -> 1 <= W ->
+  (forall y' x', 0 <= y' < H -> 0 <= x' < W ->
+     c y' x' = c (fst (argmax2 H W c)) (snd (argmax2 H W c)) -> (y', x') = argmax2 H W c) ->
+  argmax2 W H (transp c) = (snd (argmax2 H W c), fst (argmax2 H W c)).
+Proof. exact argmax_transpose_unique. Qed.
+Print Assumptions C14_argmax_transposes_under_unique_maximum.
+
+Theorem C14_centre_of_mass_transposes : forall H W c y x,
+  let m := refine_com H W c y x in let mt := refine_com W H (transp c) x y in
+  com_r mt = com_r m /\ com_sy mt = com_sx m /\ com_sx mt = com_sy m /\ com_s mt = com_s m.
+Proof. exact refine_com_transpose. Qed.
+Print Assumptions C14_centre_of_mass_transposes.
